@@ -116,12 +116,6 @@ def terOps (n : Nat) (before after : Nat → St) (i : Nat) : List Op :=
   List.replicate (countOthers n i fun k => !(before k).blocker && (after k).blocker) Op.addDownOther ++
   List.replicate (countOthers n i fun k => (before k).blocker && !(after k).blocker) Op.removeDownOther
 
-/-- the same function, with its values at `0 … n-1` computed once (the executable driver would otherwise re-run the whole
-    history on every access); `memo_eq` (Proofs/ForwardMulti.lean): `memo n f = f` -/
-def memo (n : Nat) (f : Nat → St) : Nat → St :=
-  let arr := ((List.range n).map f).toArray
-  fun i => if h : i < arr.size then arr[i] else f i
-
 /-- the specification of one step (see `mstep`) -/
 def mstepSpec (m : MSt) (op : MOp) : MSt :=
   let hs1 := fun i => run (m.hs i) (priOps m op i)
@@ -140,10 +134,16 @@ def mstepSpec (m : MSt) (op : MOp) : MSt :=
     | _ => m.extra
   { n := m.n, hs := hs3, events := ev, extra := ex }
 
-/-- one step of the N-machine: `mstepSpec` with the per-HTLC records tabulated -/
-def mstep (m : MSt) (op : MOp) : MSt :=
-  let r := mstepSpec m op
-  { r with hs := memo r.n r.hs }
+/-- one step of the N-machine -/
+def mstep (m : MSt) (op : MOp) : MSt := mstepSpec m op
+
+/-- EXECUTION ONLY (driver): the same state with the records of HTLCs `0 … n-1` tabulated, so that a long run does not
+    re-evaluate its whole history on every access (`mstep` reads only ids below `n` and the HTLC itself) -/
+def retab (m : MSt) : MSt :=
+  let arr := ((List.range m.n).map m.hs).toArray
+  { m with hs := fun i => arr.getD i Forward.init }
+
+def mrunTab (m : MSt) (ops : List MOp) : MSt := ops.foldl (fun m op => retab (mstep m op)) m
 
 def minit (n : Nat) : MSt := { n := n, hs := fun _ => Forward.init }
 
